@@ -57,7 +57,7 @@ fi
 # 2b. patched copy of the pinned bbolt module (crash-point recorder hooks; used through -modfile, /repo/go.mod untouched)
 BVER=$(grep -E '^\s*go.etcd.io/bbolt ' /repo/go.mod | awk '{print $2}')
 BSRC=$(cd /repo && go env GOMODCACHE)/go.etcd.io/bbolt@$BVER
-if [ ! -f .build/bbolt/.verif-ver ] || [ "$(cat .build/bbolt/.verif-ver)" != "$BVER" ]; then
+if [ ! -f .build/bbolt/.verif-ver ] || [ "$(cat .build/bbolt/.verif-ver)" != "$BVER+vsync1" ]; then
   rm -rf .build/bbolt
   cp -r "$BSRC" .build/bbolt
   chmod -R u+w .build/bbolt
@@ -68,6 +68,7 @@ def edit(p, old, new):
     assert s.count(old) == 1, (p, old, s.count(old))
     open(p, 'w').write(s.replace(old, new))
 b = '/verif/.build/bbolt/'
+edit(b + 'db.go', '\t"sync"\n', '\tsync "go.etcd.io/bbolt/vsync"\n')
 edit(b + 'db.go', 'db.ops.writeAt = db.file.WriteAt', 'db.ops.writeAt = verifWrapWriteAt(db, db.file.WriteAt)')
 edit(b + 'bolt_linux.go', 'return syscall.Fdatasync(int(db.file.Fd()))', 'err := syscall.Fdatasync(int(db.file.Fd()))\n\tverifEvent(db, "sync", 0, nil)\n\treturn err')
 edit(b + 'db.go', 'if err := db.file.Truncate(int64(sz)); err != nil {', 'verifEvent(db, "truncate", int64(sz), nil)\n\t\t\tif err := db.file.Truncate(int64(sz)); err != nil {')
@@ -95,8 +96,10 @@ func verifWrapWriteAt(db *DB, f func([]byte, int64) (int, error)) func([]byte, i
 }
 """)
 PYEOF
-  echo "$BVER" > .build/bbolt/.verif-ver
+  echo "$BVER+vsync1" > .build/bbolt/.verif-ver
 fi
+# vsync (scheduler-visible locks) lives inside the bbolt copy so that both rain and bbolt can import it
+mkdir -p .build/bbolt/vsync && cp engine/vsync/vsync.go .build/bbolt/vsync/vsync.go
 # modfile = the repo's current go.mod + replace (regenerated every time by vcheck as well)
 cp /repo/go.mod .build/go.mod && cp /repo/go.sum .build/go.sum && echo 'replace go.etcd.io/bbolt => /verif/.build/bbolt' >> .build/go.mod
 . tools/env.sh
